@@ -83,6 +83,30 @@ def check_module(res, c, T):
         res.violation(f"C02:clone-type:{T}", f"clone is {type(cl).__name__}", desc)
         return
     compare(res, T, "clone", S_syn, build.norm_module(snapshot.snap_module(cl, "synth"), "after"), desc)
+    # (c0) inside a project that also holds OTHER modules of the same type, with other content, before and after it: what
+    #      is written for one module is worked out from that module alone
+    if T == "MetaModule" or c.index % 3 == 0:
+        try:
+            others = [workload.module_case(c.seed, 900000 + c.index * 2 + k, c.tier, T, ctx="project").obj for k in range(2)]
+        except Exception:
+            others = []
+            res.count("companions_unusable")
+        if others:
+            q = api.Project()
+            mine = m.clone()
+            q.attach_module(others[0])
+            q.attach_module(mine)
+            q.attach_module(others[1])
+            S_mine = build.norm_module(snapshot.snap_module(mine, "project"), "before")
+            S_oth = build.norm_module(snapshot.snap_module(others[1], "project"), "before")
+            try:
+                q2 = workload.load(q.read())
+            except Exception as e:
+                res.violation(f"C02:project-context-raises:{T}:{workload.exc_key(e)}", f"{T} among others of its type in a project: {e!r}", desc)
+                return
+            res.count("project_roundtrips_among_same_type")
+            compare(res, T, "project-among-same-type", S_mine, build.norm_module(snapshot.snap_module(q2.modules[2], "project"), "after"), desc)
+            compare(res, T, "project-among-same-type", S_oth, build.norm_module(snapshot.snap_module(q2.modules[3], "project"), "after"), desc)
     # (c) inside a project
     p = api.Project()
     p.attach_module(m)
